@@ -9,21 +9,19 @@ import (
 )
 
 func main() {
-	y := `module k { namespace "urn:k"; prefix k; revision 0;
-	leaf big { type string { length "0..18446744073709551615"; } } leaf hi { type bits { bit lo; bit top { position 64; } } }
-	leaf u { type uint64 { range "0..18446744073709551615"; } } leaf b2 { type bits { bit a { position 63; } bit b; } }
-	}`
-	m, err := parser.LoadModuleFromString(nil, y)
-	fmt.Println("load", err)
-	if err != nil {
-		return
-	}
-	for _, doc := range []string{`{"big":"abc"}`, `{"hi":"lo top"}`, `{"hi":"top"}`, `{"u":5}`, `{"u":18446744073709551615}`, `{"b2":"a"}`} {
-		data := map[string]interface{}{}
-		b := node.NewBrowser(m, nodeutil.ReflectChild(data))
-		src, _ := nodeutil.ReadJSON(doc)
+	y := `module k { namespace "urn:k"; prefix k; revision 0; container box { list l { key k; leaf k { type binary; } leaf v { type string; } } } }`
+	m, _ := parser.LoadModuleFromString(nil, y)
+	for _, be := range []string{"node", "reflect"} {
+		d := map[string]interface{}{}
+		var root node.Node = nodeutil.ReflectChild(d)
+		if be == "node" {
+			root = &nodeutil.Node{Object: d}
+		}
+		b := node.NewBrowser(m, root)
+		src, _ := nodeutil.ReadJSON(`{"box":{"l":[{"k":"aGk=","v":"v0"},{"k":"AA==","v":"v1"},{"k":"+//+","v":"v2"}]}}`)
 		err := b.Root().UpsertFrom(src)
-		out, _ := nodeutil.WriteJSON(b.Root())
-		fmt.Println(doc, "->", err, data, out)
+		fmt.Printf("%s %v %q\n", be, err, fmt.Sprint(d))
+		out, err := nodeutil.WriteJSON(b.Root())
+		fmt.Println(out, err)
 	}
 }
